@@ -17,7 +17,9 @@ RULE = ("case = generated enum (12 reprs, 1..700 variants, 1..9 runs, anchors at
         "else every discriminant (sampled above 64), both neighbours of every run boundary, hole midpoints, "
         "type limits, power-of-two edges, aliases of discriminants modulo 2^8/16/32/64 and PRNG values over the full repr "
         "range; plus a deterministic limits matrix: per repr, gapless and two-run enums whose MAX / MIN sits exactly on "
-        "the limit of every (possibly narrower) integer type that fits. Oracle = reference model. "
+        "the limit of every (possibly narrower) integer type that fits, a span matrix (MAX - MIN on / next to every power "
+        "of two up to 65536) and a run-count matrix (exactly k runs, k around every power of two up to 300). Oracle = "
+        "reference model. "
         "non-trivial = enum the pinned suite cannot express: repr != i8, or a negative value, or MIN != 0, or >= 3 "
         "runs, or touching a type limit; distinct by (repr, discriminant set, configuration)")
 
@@ -40,6 +42,18 @@ def fixed_cases(tier):
     """Per repr: small gapless and two-run enums whose MAX (resp. MIN) sits exactly on the limit of every integer type
     that fits - wrong-width bound tests and limit special cases (one probe per repr)."""
     out = [{"limits_matrix": r} for r in M.REPRS]
+    # span matrix: enums with holes whose MAX - MIN is exactly on / next to a power of two (bit-set style membership tests)
+    for T in (7, 8, 9, 15, 16, 17, 31, 32, 33, 63, 64, 65, 127, 128, 129, 255, 256, 257, 65535, 65536):
+        for r, base in (("u8", 10), ("i32", -32), ("u64", 1000)):
+            lo, hi = M.repr_domain(r)
+            if base + T > hi:
+                base = 0
+            if base + T > hi:
+                continue
+            vals = sorted({base, base + 1, base + T // 2, base + T})
+            spec = {"repr": r, "vis": "pub", "ident": "E", "enum_attrs": [],
+                    "variants": [{"ident": "V%d" % i, "disc": str(v)} for i, v in enumerate(vals)]}
+            out.append({"spec": spec, "cfg": S.simple_config(["try_from", "TryFrom", "into", "Into"]), "seed": T})
     # run-count matrix: exactly k runs for k around every power of two up to 300
     for spec in C.run_count_specs():
         out.append({"spec": spec, "cfg": S.simple_config(["try_from", "TryFrom", "into", "Into"]), "seed": 0})
